@@ -60,7 +60,8 @@ MANIFEST = {
             "the properties object it passed, marking-definition accepts a definition object only of the class "
             "registered under its definition_type, a registration passes / fails validation alike after a history and "
             "alone in a fresh interpreter, construct vs parse with allow_custom and an undeclared property, every "
-            "declared property is in the registered class table.",
+            "declared property is in the registered class table, extension instances do not cross versions, the 2.1 "
+            "extension-name suffix rule.",
     "design_ref": "DESIGN.md 6/C19, 7 row C19; design_notes/C19.md",
     "note": "Trusted: Coq kernel + vm_compute; tr_regex (regex TEXTS are tied; the recognisers restate Python's re "
             "semantics by hand and are compared with re on generated names every run); tr_regflow (normalised statement "
